@@ -129,29 +129,29 @@ def decide(run, jobs, leg, shards):
 
 
 def corrupt_selfcheck(run):
-    """the binding is not vacuous: corrupted observations must be rejected, each rule once"""
-    jobs = [{"p": numkit.zjson(1), "q": numkit.limbs(17), "base": 10, "mode": "default", "n": 0, "query": False},   # approx 0.05882352
-            {"p": numkit.zjson(1000), "q": numkit.limbs(3), "base": 16, "mode": "default", "n": 0, "query": False},  # 14d.[5]...
-            {"p": numkit.zjson(1), "q": numkit.limbs(17), "base": 10, "mode": "full", "n": 0, "query": False},       # period 16
-            {"p": numkit.zjson(5), "q": numkit.limbs(8), "base": 10, "mode": "default", "n": 0, "query": False}]     # 0.625
-    res = numkit.run_num(jobs, shards=1, tag="c05self")
-    good = [numkit.num_event(r) for r in res]
-    bad = json.loads(json.dumps(res))
-    bad[0]["text"][-1] += 1          # last digit rounded up
-    bad[0]["pa"][-1] += 1
-    bad[1]["text"] = numkit.cps("14d.6[5]...")          # the block one place too late
-    bad[1]["pe"] = bad[1]["text"]
-    bad[2]["text"] = numkit.cps(numkit.txt(bad[2]["text"]).replace("period 16", "period 15"))
-    bad[2]["pe"] = bad[2]["text"]
-    bad[3]["pa"], bad[3]["pe"] = bad[3]["pe"], None                 # exact numeral shown behind `approx.`
-    evs = good + [numkit.num_event(r) for r in bad]
+    """the binding is not vacuous: hand-written observations (independent of the code under test), each rule once:
+    the truthful ones must be accepted, the corrupted ones rejected"""
+    def obs(p, q, base, mode, is_exact, text, pe, pa):
+        return {"p": numkit.zjson(p), "q": numkit.limbs(q), "base": base, "mode": mode, "n": 0, "is_exact": is_exact,
+                "text": numkit.cps(text), "pe": numkit.cps(pe) if pe else None, "pa": numkit.cps(pa) if pa else None}
+    good = [obs(1, 17, 10, "default", False, "0.05882352", "1/17", "0.05882352"),
+            obs(1000, 3, 16, "default", True, "14d.[5]...", "14d.[5]...", None),
+            obs(1, 17, 10, "full", True, "0.[0588235294117647, period 16]...", "0.[0588235294117647, period 16]...", None),
+            obs(5, 8, 10, "default", True, "0.625", "0.625", None),
+            obs(-1000, 3, 36, "sci", True, "-9.9ce1", "-9.9ce1", None)]
+    bad = [obs(1, 17, 10, "default", False, "0.05882353", "1/17", "0.05882353"),                  # last digit rounded up
+           obs(1000, 3, 16, "default", True, "14d.6[5]...", "14d.6[5]...", None),                 # block one place too late
+           obs(1, 17, 10, "full", True, "0.[0588235294117647, period 15]...", "0.[0588235294117647, period 15]...", None),
+           obs(5, 8, 10, "default", False, "0.625", None, "0.625"),                               # exact numeral behind `approx.`
+           obs(-1000, 3, 36, "sci", True, "-9.9ce2", "-9.9ce2", None)]                            # exponent off by one
+    evs = [numkit.num_event(r) for r in good + bad]
     verdicts, _ = evalkit.judge(evs, "Trace_Numeral", shards=1, tag="c05selfj", min_per_shard=1)
-    for i in range(4):
+    for i in range(len(good)):
         if verdicts.get(i):
-            raise vlib.ToolError("self-check: an uncorrupted observation was not accepted: %s" % verdicts.get(i))
-        if "REJECT" not in verdicts.get(4 + i, set()):
+            raise vlib.ToolError("self-check: truthful observation %d was not accepted: %s" % (i, verdicts.get(i)))
+        if "REJECT" not in verdicts.get(len(good) + i, set()):
             raise vlib.ToolError("self-check: corrupted observation %d was not rejected by Trace_Numeral" % i)
-    run.note("selfcheck_corrupted_observations_rejected", 4)
+    run.note("selfcheck_corrupted_observations_rejected", len(bad))
 
 
 def run(tier, seed):
